@@ -501,6 +501,9 @@ def unit_sign_hq(ctx):
                 Qb = M.pubkey_calc(db)[1]
                 det["bignVerify(library signature)"] = bee2.errname(E.verify(der, H, g[1], Qb)[0])
                 det["pubkey"] = hx(Qb)
+            elif item[7]:
+                det["bignIdVerify(library signature)"] = bee2.errname(
+                    E.id_verify(der, item[6], H, g[1], item[7][3], item[7][1])[0])
         E.compare("bign" + fn, "H>=q", m, g, det)
         rv = None
         if g[0] == 0 and m[0] == OK and g[1] == m[1] and fn in ("Sign", "Sign2"):
